@@ -152,7 +152,7 @@ IMPORTS = ['Coq.Lists.List', 'Coq.NArith.NArith', 'Coq.Bool.Bool', 'SV.KV.KvBase
 IMPORTS_LOOP = ['Coq.Lists.List', 'Coq.NArith.NArith', 'Coq.Bool.Bool', 'SV.KV.KvBase', 'SV.KV.KvLex', 'SV.KV.KvParse',
                 'SV.KV.KvLoop', 'SV.KV.KvLoopRef', 'SV.KV.KvLoopEquiv', 'SV.KV.KvLoopRoundtrip', 'SV.KV.KvEnum', 'SV.KV.KvLoopEnum',
                 'SV.Gen.KVSer_gen', 'SV.Gen.KVLoop_gen']
-IMPORTS_AUX = ['SV.KV.KvWriter', 'SV.KV.KvFlagProg', 'SV.KV.KvWProg', 'SV.KV.KvShift', 'SV.Gen.KVAux_gen']
+IMPORTS_AUX = ['SV.KV.KvWriter', 'SV.KV.KvFlagProg', 'SV.KV.KvWProg', 'SV.KV.KvWHist', 'SV.KV.KvShift', 'SV.Gen.KVAux_gen']
 IMPORTS_REFINE = ['Coq.Lists.List', 'Coq.NArith.NArith', 'Coq.Bool.Bool', 'SV.Text.Str', 'SV.Text.Prog', 'SV.Text.Tokenizer',
                   'SV.Text.TokGen', 'SV.KV.KvBase', 'SV.KV.KvLex', 'SV.KV.KvParse', 'SV.KV.KvRefine', 'SV.Gen.KVSer_gen']
 PRE = '''Import ListNotations. Open Scope N_scope.
@@ -1215,6 +1215,132 @@ def roundtrip_fails(doc, opts, writer: str = 'serialise'):
     return where_differs(doc, got)
 
 
+# ------------------------------------------------------------------------------------------------ histories of writer calls
+# The property is about every call, not about the first call of a fresh process: a writer that keeps anything between
+# calls (module-level or class-level state, marks on the nodes) can answer differently after an earlier call was aborted
+# half-way and the caller carried on.  A history here = <a call that does not complete> then <the same tree is written
+# again>; the second call must give the text a freshly built equal tree gives.
+class FailingFile:
+    """A file object whose k-th write raises OSError (the earlier ones succeed)."""
+    def __init__(self, k: int) -> None:
+        self.k, self.n = k, 0
+
+    def write(self, s) -> int:
+        self.n += 1
+        if self.n >= self.k:
+            raise OSError(28, 'No space left on device (injected by the check)')
+        return len(s)
+
+
+class CountingFile:
+    def __init__(self) -> None:
+        self.n = 0
+
+    def write(self, s) -> int:
+        self.n += 1
+        return len(s)
+
+
+HISTORY_KINDS = ['failed-write', 'nonstr-value', 'cycle-repaired', 'abandoned-export']
+HISTORY_ROTA = ['failed-write', 'nonstr-value', 'failed-write', 'abandoned-export']
+
+
+def preorder(kv) -> list:
+    out = [kv]
+    if isinstance(kv._value, list):
+        for c in kv._value:
+            out += preorder(c)
+    return out
+
+
+def history_fails(doc, opts: dict, kind: str, k: int) -> str:
+    """'' if, after the aborted call of `kind` (k selects the write / leaf / block / number of lines), writing the tree again
+    gives the text of a freshly built equal tree (for the tree itself and for every block below it) and the tree is unchanged;
+    else a description class."""
+    want, err = write_text(build_root(doc), opts)
+    if want is None:
+        return ''       # the plain call fails: reported by the round-trip oracle
+    with warnings.catch_warnings():
+        warnings.simplefilter('ignore')
+        root = build_root(doc)
+        nodes = preorder(root)
+        pre, err = write_text(root, opts)
+        if pre != want:      # (state left behind by an earlier history of this process: the key says so)
+            return 'control-call-before-the-abort-differs'
+        try:
+            if kind == 'failed-write':
+                cf = CountingFile()
+                try:
+                    guarded(root.serialise, cf, **opts)
+                except Exception as e:      # noqa: BLE001   (write_text above succeeded on an equal tree)
+                    return f'call-with-a-file-raised:{type(e).__name__}'
+                if cf.n == 0:
+                    return ''
+                try:
+                    guarded(root.serialise, FailingFile(1 + k % cf.n), **opts)
+                    return 'error-of-the-file-swallowed'
+                except OSError:
+                    pass
+            elif kind == 'nonstr-value':
+                leaves = [x for x in nodes if not isinstance(x._value, list)]
+                if not leaves:
+                    return ''
+                leaf = leaves[k % len(leaves)]
+                orig = leaf.value
+                leaf.value = 12345 if k % 2 else None
+                try:
+                    guarded(root.serialise, **opts)
+                except ImplTimeout:
+                    raise
+                except Exception:       # noqa: BLE001   (a value that is not a string is outside the property: anything goes)
+                    pass
+                leaf.value = orig
+            elif kind == 'cycle-repaired':
+                blocks = [x for x in nodes[1:] if isinstance(x._value, list)]
+                if not blocks:
+                    return ''
+                blk = blocks[k % len(blocks)]
+                blk._value.append(blk)
+                try:
+                    guarded(root.serialise, **opts)
+                except ImplTimeout:
+                    raise
+                except Exception:       # noqa: BLE001   (RecursionError today: cyclic trees are outside the property)
+                    pass
+                finally:
+                    blk._value.pop()
+            elif kind == 'abandoned-export':
+                gen = root.export()
+                for _ in range(k % 7):
+                    if guarded(next, gen, None) is None:
+                        break
+                del gen
+            else:
+                return ''
+        except ImplTimeout:
+            return 'aborted-call-hang'
+    got, err = write_text(root, opts)
+    if got is None:
+        return f'second-call-raised:{err}'
+    if got != want:
+        return 'second-call-text-differs'
+    if kind == 'abandoned-export':
+        want_x, _ = write_text(build_root(doc), {}, 'export')
+        got_x, err = write_text(root, {}, 'export')
+        if want_x is not None and got_x != want_x:
+            return f'second-export-raised:{err}' if got_x is None else 'second-export-text-differs'
+    blocks = [x for x in nodes[1:] if isinstance(x._value, list)]
+    for x in blocks[:2] + blocks[2:][-1:]:       # the first two blocks (in file order) and the last one
+        if True:
+            sub_want, _ = write_text(build(snapshot(x)), opts)
+            sub_got, err = write_text(x, opts)
+            if sub_want is not None and sub_got != sub_want:
+                return f'sub-block-raised:{err}' if sub_got is None else 'sub-block-text-differs'
+    if snapshot(root)[2] != doc:
+        return 'tree-changed'
+    return ''
+
+
 def shrink_doc(doc, pred):
     """Greedy structural shrinking of a failing document."""
     def variants(d):
@@ -1307,6 +1433,7 @@ def search(ck: Ck) -> None:
     found: dict[str, tuple] = {}
     shrinks: dict[str, int] = {}
     shrunk_docs: set = set()
+    hist_jobs: list = []
 
     def may_shrink(kind: str, doc) -> bool:
         """Shrinking is the expensive part: per writer path, a dozen failures are shrunk, later ones only when all
@@ -1474,8 +1601,32 @@ def search(ck: Ck) -> None:
                        {'writer': 'export'})
             if identity_walk(root) != before:
                 report('export-mutates-tree', 'the tree differs after export()', doc, {})
+            hist_jobs.append((i, doc, opts))
         if special and nodes >= 1:
             ck.seen(('search', repr(doc)))
+    # histories: a call that is aborted half-way (the file raises at the k-th write, a value that is not a string and is
+    # repaired afterwards, a cycle that is taken out again, an export() generator dropped after a few lines), then the same
+    # tree is written again: every kind for the directed documents, one kind per generated tree.  They run after everything
+    # else: a writer that keeps state across calls would otherwise disturb the oracles above (in a way no replay, which
+    # starts a fresh process, could reproduce).
+    with warnings.catch_warnings():
+        warnings.simplefilter('ignore')
+        for i, doc, opts in hist_jobs:
+            UNVERIFIED[0] = False
+            if HANGS[0] >= MAX_HANGS:
+                break
+            # (a cycle costs a RecursionError a thousand frames deep, 14 ms: one generated tree in 32 gets it)
+            for kind in (HISTORY_KINDS if i < len(SEARCH_CORPUS) else
+                         [HISTORY_ROTA[i % len(HISTORY_ROTA)]] + (['cycle-repaired'] if i % 32 == 5 else [])):
+                hk = ck.rng.randrange(1 << 16)
+                ck.count('search_histories')
+                ck.hist('search_history_kind', kind)
+                d = history_fails(doc, opts, kind, hk)
+                if d and may_shrink('history:' + kind, doc):
+                    small = shrink_doc(doc, lambda dd, kind=kind, hk=hk, opts=opts: bool(history_fails(dd, opts, kind, hk)))
+                    cls = history_fails(small, opts, kind, hk) or d
+                    report(f'history:{kind}:{cls}', f'after an aborted call ({kind}) the tree is no longer written as a fresh '
+                           f'equal tree is ({cls})', small, opts, {'history': kind, 'k': hk})
     ck.sample({'search_tree': SEARCH_CORPUS[6], 'serialised_default': impl_serialise(SEARCH_CORPUS[6], OPTS_WS[0])})
     for key, (what, doc, opts, extra) in found.items():
         ck.violation(key, what, {'doc': doc, 'opts': opts, 'extra': extra,
@@ -1667,6 +1818,12 @@ def run(ck: Ck) -> None:
             # _serialise as an instruction program (gen_wprog)
             'writer_program_has_no_store_or_mutating_instruction': 'wprog_pure gen_wprog',
             'writer_program_writes_are_the_templates_of_the_writer_model': 'wprog_text_ok gen_sercfg gen_wprog',
+            # state that outlives a call (round 5): _serialise as a program over it (gen_hprog, KV/KvWHist.v), and the census of
+            # serialise / _serialise / export / escape_text / _escape_matcher
+            'writer_program_has_no_instruction_touching_state_that_outlives_the_call(premise of writer_history_independent)':
+                'hprog_stateless gen_hprog',
+            'writers_read_and_write_no_module_or_class_level_mutable_object': 'Nat.eqb (length gen_writer_state_sites) 0',
+            'history_program_and_writer_program_have_the_same_writes_and_child_loops': 'same_skeleton gen_hprog gen_wprog',
             'no_store_to_tree_in_writers': 'Nat.eqb (length gen_tree_stores) 0',
             'no_mutating_call_on_tree_in_writers': 'Nat.eqb (length gen_tree_mut_calls) 0',
             # the token loop of parse as a regenerated decision tree (Gen/KVLoop_gen.v) against the reference tree
@@ -1760,6 +1917,10 @@ def run(ck: Ck) -> None:
         for pre in ('instance:serialise_hands_the_writes', 'instance:serialise_has_a_path', 'instance:delivery_ok',
                     'instance:all_nine_hypotheses'):
             ck.explain(pre)
+    if any(k.startswith('history:') for k in keys):
+        # an aborted call that changes what a later call does explains the state obligations
+        ck.explain('instance:writer_program_has_no_instruction_touching_state')
+        ck.explain('instance:writers_read_and_write_no_module_or_class_level')
     if 'serialise-mutates-tree' in keys or 'export-mutates-tree' in keys:
         ck.explain('instance:no_store_to_tree')
         ck.explain('instance:no_mutating_call')
@@ -1779,6 +1940,14 @@ def replay(data: dict) -> int:
     doc = [tup(t) for t in r['doc']]
     opts = r.get('opts') or {}
     extra = r.get('extra') or {}
+    if extra.get('history'):
+        print('tree      :', doc)
+        print('options   :', opts)
+        print('history   :', f'an aborted call of kind {extra["history"]!r} (selector {extra.get("k", 0)}), then the same tree is written again')
+        d = history_fails(doc, opts, extra['history'], int(extra.get('k', 0)))
+        print('second call:', d or 'same text as a freshly built equal tree')
+        print('round trip:', 'DIFFERS' if d else 'OK')
+        return 0
     text, werr = write_text(build(doc[0]) if extra.get('named') else build_root(doc), opts,
                             'export' if extra.get('writer') == 'export' else 'serialise')
     print('tree      :', doc)
